@@ -1,14 +1,23 @@
 (* Extraction of the C16 models for the correspondence check. ExtrOcamlBasic only. *)
 From V.lib Require Import Base.
 From V.c13 Require Import C13Model.
+From V.c14 Require Import C14Model.
 From V.c15 Require Import C15Model.
-From V.c16 Require Import C16Model C16ParseModel.
+From V.c17 Require Import C17Spec C17Model C17TypedModel.
+From V.c18 Require Import C18Model.
+From V.c16 Require Import C16Model C16ParseModel C16AuxModel.
 Require Import ExtrOcamlBasic.
 Separate Extraction
   avc_get_nalus_from_sample avc_find_nalu_types avc_find_nalu_types_upto
-  avc_contains_nalu_type avc_is_idr_sample avc_has_parameter_sets avc_get_parameter_sets
+  avc_contains_nalu_type avc_is_idr_sample C16Model.avc_has_parameter_sets C16Model.avc_get_parameter_sets
   convert_sample_to_byte_stream
   hevc_find_nalu_types hevc_find_nalu_types_upto hevc_contains_nalu_type
-  hevc_is_rap_sample hevc_is_idr_sample hevc_has_parameter_sets hevc_get_parameter_sets
-  hpt_params decode_pic_timing_hevc
-  c16_parse_sps c16_parse_pps c16_parse_slice sps_lookup pps_lookup chroma_lookup get_slice_type.
+  hevc_is_rap_sample hevc_is_idr_sample C16Model.hevc_has_parameter_sets C16Model.hevc_get_parameter_sets
+  C16Model.hpt_params C16Model.decode_pic_timing_hevc
+  c16_parse_sps c16_parse_pps c16_parse_slice sps_lookup pps_lookup chroma_lookup get_slice_type
+  parse_cea608_p decode_registered_p extract_cea608_p decode_unregistered_p mdcv_decode_p cll_decode_p
+  extract_sei_data_go C17TypedModel.tc_decode C17TypedModel.pt_decode
+  decode_adts_t C18Model.decode_asc
+  C14Model.extract_nalus_from_byte_stream C14Model.to_nalu_sample C14Model.avc_get_first_video_nalu
+  C14Model.avc_extract_nalus_of_type C14Model.hevc_extract_nalus_of_type
+  C14Model.avc_get_parameter_sets_from_byte_stream C14Model.hevc_get_parameter_sets_from_byte_stream.
